@@ -33,7 +33,7 @@ def type_graph(prog, roots):
 
 
 def run(chk, prog):
-    chk.rules_live = ["R1", "R2", "R3", "R4", "R5", "R6"]
+    chk.rules_live = ["R1", "R2", "R3", "R4", "R5", "R6", "R7", "R8"]
     chk.explanation = (
         "Structural rules over the type graph reachable from the signed portion of the four role types "
         "(type-checked ADT facts joined with #[serde(..)] attributes parsed from the sources): what is "
@@ -42,8 +42,14 @@ def run(chk, prog):
         "skip/with attributes, omission only for Option::is_none, a flattened catch-all map at every "
         "level, the role tag emitted from the Rust type with the input's `_type` removed from the "
         "catch-all (the canonical formatter keeps the last duplicate member), and the hand-written "
-        "Serialize impls emit the original text they were parsed from.")
-    chk.not_decided = ["single-point mutation outcomes as such", "injectivity of the canonical form (C11)"]
+        "Serialize impls emit the original text they were parsed from. R6/R7: the canonical form "
+        "that is signed keeps distinct values distinct as far as its rules can see: C11's formatter "
+        "obligations (member map keyed by the exactly un-escaped key, strings written as NFC and "
+        "nothing coarser, escape table, no float/whitespace paths) are re-evaluated here. R8: 'extra "
+        "unrelated signature entries do not make the document unacceptable': C01's counting-loop "
+        "obligations for both verifiers (an entry is recorded as seen only after it verified, nothing "
+        "but the three named failures rejects).")
+    chk.not_decided = ["single-point mutation outcomes as such", "injectivity of the canonical form beyond C11's rules"]
     chk.assumptions = ["serde-derive implements its documented attribute semantics"]
     attrs = Attrs(prog.facts_dir)
     graph = type_graph(prog, list(ROLES))
@@ -162,6 +168,10 @@ def run(chk, prog):
     # member map of the formatter is keyed by an exact un-escaping of the written key (shared with C11-R3)
     from . import c11
     c11.r3_ordering(_Relabel(chk, "R6"), prog)
+    c11.r5_escapes(_Relabel(chk, "R7"), prog)
+    c11.r6_strings(_Relabel(chk, "R7"), prog)
+    c01.verifier(_Relabel(chk, "R8"), prog, c01.ROOT_VERIFY, "root")
+    c01.verifier(_Relabel(chk, "R8"), prog, c01.DELEG_VERIFY, "delegations")
 
 
 def r5_manual(chk, prog, graph, manual_ser):
